@@ -284,6 +284,22 @@ def run(tier, seed, replay):
                 if ((rc2 == 0) != gpass) or (bool(tokout) != gpass):
                     rep.violation("jwt-generate-print-status:%s" % label, "jwt-generate -v %s: exit %d, token printed: %s, the command %s" % (sp[0], rc2, bool(tokout), label),
                                   dict(cmd=cmd, spelling=sp[0], rc=rc2, stdout=o2[:200]))
+        # many tokens with a --print command under a small descriptor limit: every token costs two runs of the command, none may cost a descriptor
+        import resource
+        def lim():
+            resource.setrlimit(resource.RLIMIT_NOFILE, (128, resource.getrlimit(resource.RLIMIT_NOFILE)[1]))
+        for n_, mode in ((100, "args"), (300, "stdin"), (300, "args")):
+            toks = [ptok, good[0], good[1]] * (n_ // 3)
+            if mode == "args":
+                p_ = subprocess.run([T["jwt-verify"], "-v", "-k", hkey, "-p", "cat"] + toks, capture_output=True, env=env, preexec_fn=lim)
+            else:
+                p_ = subprocess.run([T["jwt-verify"], "--verbose", "--key=" + hkey, "--print=cat", "-"], input=("\n".join(toks) + "\n").encode(), capture_output=True, env=env, preexec_fn=lim)
+            rep.evaluations += 1
+            rep.count("print_many_tokens_cases")
+            rep.distinct.add(("print-many", n_, mode))
+            if p_.returncode != 0:
+                rep.violation("jwt-verify-print-many-tokens:%s" % mode, "jwt-verify -v -p cat over %d valid tokens (descriptor limit 128) exits %d" % (len(toks), p_.returncode),
+                              dict(n=len(toks), mode=mode, stderr=p_.stderr.decode("latin-1")[-300:]))
     else:
         rep.violation("jwt-generate-fails:print-stage", "cannot make the token for the --print stage", dict(rc=rc, stderr=err[-300:]))
     # key-less (alg none) lists
